@@ -73,13 +73,15 @@ def trace_requests(problem, normalized: bool):
 
     space = problem.design_space
 
-    def phys(x):
-        return flt(space.unnormalize_vect(x) if normalized else x)
+    def phys(function, x):
+        # `normalized` (the algorithm works on the unit cube) is only a hint: each preprocessed
+        # function says whether it expects normalised inputs (the new-iteration observables do not)
+        return flt(space.unnormalize_vect(x) if function.expects_normalized_inputs else x)
 
     orig_evaluate = ProblemFunction.evaluate
 
     def evaluate(self, x_vect):
-        c12_disc.LOG.write({"ev": "req", "name": self.name, "x": phys(x_vect)})
+        c12_disc.LOG.write({"ev": "req", "name": self.name, "x": phys(self, x_vect)})
         return orig_evaluate(self, x_vect)
 
     ProblemFunction.evaluate = evaluate
@@ -89,7 +91,7 @@ def trace_requests(problem, normalized: bool):
         pointer = base_jac.fget(self)
 
         def traced(x_vect):
-            c12_disc.LOG.write({"ev": "req", "name": Database.get_gradient_name(self.name), "x": phys(x_vect)})
+            c12_disc.LOG.write({"ev": "req", "name": Database.get_gradient_name(self.name), "x": phys(self, x_vect)})
             return pointer(x_vect)
 
         return traced
